@@ -151,6 +151,9 @@ impl<T: El> SetWorld<T> {
 
     pub fn apply(&mut self, op: Op) -> VResult<u64> {
         self.ops_done += 1;
+        // C02 for the single-element set calls: what was present before, the table lengths, hashes, allocations
+        let single = matches!(op.k, OpK::SInsert | OpK::SReplace | OpK::SRemove | OpK::STake | OpK::SGet | OpK::SContains | OpK::SGetOrInsert | OpK::SGetOrInsertOwned | OpK::SGetOrInsertWith);
+        let pre = if self.cfg.flags.c02 && single && !T::ZST { Some((self.r.contains_key(&T::norm(op.key)), self.r.len(), self.s.verif_stats(), crate::hasher::counts()[0], alloc::allocs())) } else { None };
         let res = catch(|| self.do_op(op));
         let obs = match res {
             Ok(Ok(o)) => o,
@@ -159,6 +162,31 @@ impl<T: El> SetWorld<T> {
         };
         if let Some(f) = elem::ledger_fault() {
             vbail!("ledger", "{}", f);
+        }
+        if let Some((present, len0, s0, h0, a0)) = pre {
+            let s1 = self.s.verif_stats();
+            let hashes = crate::hasher::counts()[0] - h0;
+            let allocs = alloc::allocs() - a0;
+            let (old0, old1) = (s0.old.map_or(0, |o| o.0), s1.old.map_or(0, |o| o.0));
+            let grew = s0.old.is_none() && allocs >= 1;
+            let moved = if grew { s1.main_len.saturating_sub(1) } else { old0.saturating_sub(old1) };
+            let adds = self.r.len() > len0;
+            let removes = self.r.len() < len0;
+            let r = griddle::verif::R;
+            // `insert` of an element that is already there is the map's overwriting insert (it may move a batch
+            // when the element still sits in the old table); every other call on a present element, every lookup
+            // and every removal is an in-place update / lookup / removal
+            let may_move = adds || (op.k == OpK::SInsert && present);
+            if may_move {
+                if moved > r || hashes as usize > r + 2 || allocs > 1 {
+                    vbail!("monitor", "{} moved {} elements, computed {} hashes, made {} table allocations (bounds: R = {}, R + 2, 1)", op, moved, hashes, allocs, r);
+                }
+            } else {
+                let moved = moved.saturating_sub(removes as usize);
+                if moved > 0 || hashes > 2 || allocs > 0 {
+                    vbail!("monitor", "{} (a lookup / removal / in-place update) moved {} elements, computed {} hashes, made {} allocations", op, moved, hashes, allocs);
+                }
+            }
         }
         Ok(obs)
     }
